@@ -175,6 +175,13 @@ def make_fake_optimizer_class():
                 raise SolverFailed("linear solver failed (injected)")
             last, loss, rc = self.script[self.calls]
             self.calls += 1
+            if getattr(self, "own_buffer", None) is not None:
+                # an optimizer that keeps ONE buffer for its readings, updates it in place and hands out views of it
+                # (or a Parameter): what it returns IS its own state
+                self.own_buffer[0], self.own_buffer[1] = float(last), float(loss)
+                last, loss = self.own_buffer[0], self.own_buffer[1]
+                if getattr(self, "as_parameter", False):
+                    loss = torch.nn.Parameter(loss.clone())
             self.feed(last, loss, rc)
             return loss
 
@@ -199,6 +206,13 @@ def controller_class(kind: str, klass: str):
         name = f"User{kind.title()}{klass.title().replace('_', '')}"
         if klass == "sub":
             cls = type(name, (base,), {"user_tag": "mine"})
+        elif klass == "sub_prop":
+            # a user subclass that turns configuration ATTRIBUTES into PROPERTIES backed by its own private fields
+            def mkprop(field):
+                priv = "_user_" + field
+                return property(lambda self, _p=priv: getattr(self, _p), lambda self, v, _p=priv: setattr(self, _p, v))
+            fields = ["decreasing", "patience"] + (["tol", "max_steps"] if kind == "rtb" else [])
+            cls = type(name, (base,), {f: mkprop(f) for f in fields})
         else:
             def step(self, loss, _b=base):
                 self.seen = getattr(self, "seen", 0) + 1
